@@ -370,9 +370,17 @@ def check_restored(m, k3):
                     rel.add(i.ref)
                     changed = True
 
+        foreign = []
+
         def transfer(ins, st, ps):
             if ins.op == 'store':
                 fs = resolve_addr(f, ins.o[1])
+                if fs.root == '$0' and fs.fsteps[:1] and fs.fsteps[0][0] == 'cstl_bintree' and fs.fsteps[0][1] not in ('root', 'size'):
+                    # anything else of the tree object (offset, comparison function and its context) must survive clear
+                    v = f.get(strip_bitcasts(f, ins.o[0])) if isinstance(ins.o[0], str) else None
+                    same = v is not None and v.op == 'load' and resolve_addr(f, v.o[0]).root == '$0' and resolve_addr(f, v.o[0]).fsteps == fs.fsteps
+                    if not same:
+                        foreign.append('%s is overwritten at %s with something other than its own value' % ('.'.join(fs.steps), ins.loc()))
                 if fs.root == '$0' and fs.fsteps[-1:] == (('cstl_bintree', 'root'),):
                     z = ins.o[0] == 'null' or const_int(ins.o[0]) == 0
                     return (z, st[1], st[2] or not z)
@@ -394,6 +402,9 @@ def check_restored(m, k3):
                 if ps.auto[0] != ps.auto[1]:
                     what = 'resets only %s' % ('the root (size keeps counting the elements handed over)' if ps.auto[0] else 'the size (root still points at handed-over nodes)')
                 bad.append('a path to the return at %s %s' % (r.loc(), what))
+        if res is not None and foreign:
+            bad.append('clear changes more than the contents: %s (a cleared tree must be usable exactly like before, with its own comparison '
+                       'function, context and offset)' % '; '.join(sorted(set(foreign))[:2]))
         if res is None:
             pass
         elif bad:
@@ -445,7 +456,7 @@ def check_restored(m, k3):
             facts = pv.facts_at(r)
             if not any(_is_field_load(f, x, 'cstl_dlist', 'size') and ((op == 'ule' and const_int(y) == 0) or (op == 'eq' and const_int(y) == 0)) for (op, x, y) in facts):
                 bad.append('the return at %s is not under size == 0' % r.loc())
-        unl = [c for c in pf.all_insts() if c.op == 'call' and c.callee and m.pfn(c.callee) is not None and _decrements(m.pfn(c.callee), 'cstl_dlist', 'size')]
+        unl = [c for c in pf.all_insts() if c.op == 'call' and c.callee and m.pfn(c.callee) is not None and _decrements(m.pfn(c.callee), 'cstl_dlist', 'size', m)]
         latches = [(p, b) for b in pf.blocks for p in b.pred if pf.dominates_block(b, p)]
         if len(unl) != 1 or not latches or not all(pf.dominates_block(unl[0].block, p) for p, _ in latches):
             bad.append('the loop does not unlink exactly one node per iteration through the size-decrementing primitive')
@@ -460,9 +471,10 @@ def _is_field_load(f, ref, struct, field):
     return i is not None and i.op == 'load' and resolve_addr(f, i.o[0]).fsteps[-1:] == ((struct, field),)
 
 
-def _decrements(g, struct, field):
+def _decrements(g, struct, field, m=None):
+    is_field = listrules.field_addr_pred(m, g, struct, field) if m is not None else (lambda r: resolve_addr(g, r).fsteps[-1:] == ((struct, field),))
     for s in g.all_insts():
-        if s.op == 'store' and resolve_addr(g, s.o[1]).fsteps[-1:] == ((struct, field),):
+        if s.op == 'store' and is_field(s.o[1]):
             if unit_step(g, s.o[0])[1] == -1:
                 return True
     return False
